@@ -269,7 +269,10 @@ def oracle(case, refres, sb):
         if so and ro and so[0] == "KeyError" and ro[0] != "KeyError" and "KeyError" in mro and so[1] == ro[1]:
             sig = {"kind": "outcome", "cause": "keyerror-subclass-replaced"}
         elif so and ro and so[0] == ro[0]:
-            sig = {"kind": "outcome-line", "cls": ro[0]}
+            # one signature per way of locating, not per exception class (a defect in how the line is found shows
+            # under every class that can be raised): a program that does not compile vs a run-time exception
+            sig = {"kind": "outcome-line", "cls": "compile-time" if ro[0] in ("SyntaxError", "IndentationError", "TabError")
+                   else "run-time"}
         else:
             sig = {"kind": "outcome", "plain": ro[0] if ro else None, "sandbox": so[0] if so else None}
         return sig, "outcome %r in the sandbox, %r in plain CPython" % (so, ro)
@@ -305,7 +308,7 @@ def oracle(case, refres, sb):
             # the exception was raised inside the program's own code: "the same exception" is the same kind of
             # exception at the same line of the program (a failure of the call expression itself - wrong arity,
             # a name that is not a function - has no line in the program and is not compared)
-            return (override_cause(c, refres["globals"]) or {"kind": "call-line", "cls": rc["result"][1]},
+            return (override_cause(c, refres["globals"]) or {"kind": "call-line"},
                     "call %s(%s): %s located at line %r by the sandbox, raised at line %r when called directly" % (
                         c["fn"], ", ".join(c.get("args", []))[:80], rc["result"][1], sc.get("line"), rc["line"]))
         if rc.get("events") is not None and sc.get("out") is not None and not exhausted(rc["events"]) \
